@@ -243,6 +243,35 @@ def observe(M, net, engine, step_kwargs, symvals: SymVals = None):
     return ob
 
 
+def apply_declared(ob, declared_desc, built, rec=None):
+    """The network the caller *described* is the specification: element kinds, flow-equation
+    variants and parameters are taken from the description the driver built the objects from
+    (matched by object identity), not from the live attributes, so that a constructor or a step
+    that silently rewrites them cannot hide behind the extraction.  Differences are counted."""
+    byobj = {}
+    for did, o in built.elements.items():
+        byobj[id(o)] = did
+    dl = {l["id"]: l for l in declared_desc["links"]}
+    do = {o["id"]: o for o in declared_desc["origins"]}
+    dd = {d["id"]: d for d in declared_desc["dests"]}
+    for grp, table, keys in (("links", dl, ("N", "lam", "L", "rho_max", "rho_crit", "v_free", "a", "beta", "vsl", "alpha")),
+                             ("origins", do, ("kind", "C", "eq")), ("dests", dd, ("kind",))):
+        for e in ob.desc[grp]:
+            did = byobj.get(id(ob.objmap[e["id"]]))
+            if did is None or did not in table:
+                continue
+            for k in keys:
+                want = table[did].get(k)
+                if k == "vsl" and want is not None:
+                    want = sorted(want)
+                if e.get(k) != want:
+                    if rec is not None:
+                        rec.count("live_attribute_differs_from_declared")
+                        rec.seen("live_attribute_differs_from_declared", (grp, k, repr(e.get(k))[:30], repr(want)[:30]))
+                    e[k] = want
+    return ob
+
+
 def cur_shape(x):
     s = getattr(x, "shape", None)
     if s is None:
